@@ -2,8 +2,8 @@
 # cross_neutral.sh : apply every neutral patch under /tmp/w5-C*/NEUTRAL and run the quick checks of every property that
 # exercises the files it touches (except its own, which try_neutral.sh already ran). Prints only alarms.
 cd "$(dirname "$0")/.."
-for P in /tmp/w5-C*/NEUTRAL/*/patch.diff; do
-  own=$(echo $P | sed 's#.*/w5-\(C[0-9]*\)/.*#\1#')
+for P in ${NEUTRAL_GLOB:-/tmp/w5-C*/NEUTRAL/*/patch.diff}; do
+  own=$(echo $P | sed 's#.*/w[0-9]-\(C[0-9]*\)/.*#\1#')
   files=$(grep '^+++ b/' $P | sed 's#+++ b/##' | tr '\n' ' ')
   ids=""
   case "$files" in *service_provider.go*|*schema.go*|*util.go*) ids="$ids C01 C02 C03 C04 C08 C12 C13 C18 C07";; esac
